@@ -1015,6 +1015,39 @@ parse_null(spif_charptr_t buff, void *state)
     }
 }
 
+#ifdef LIBAST_VERIF
+/* Verification hook (read-only):  copies the private table indices and
+   capacities of the config parser and the length of the variable list. */
+struct spifconf_verif {
+    unsigned int ctx_idx, ctx_cnt;
+    unsigned int ctx_state_idx, ctx_state_cnt;
+    unsigned int fstate_idx, fstate_cnt;
+    unsigned int builtin_idx, builtin_cnt;
+    unsigned int nvars;
+    unsigned int tables;
+};
+
+void
+spifconf_verif_snapshot(struct spifconf_verif *out)
+{
+    spifconf_var_t *v;
+
+    out->ctx_idx = ctx_idx;
+    out->ctx_cnt = ctx_cnt;
+    out->ctx_state_idx = ctx_state_idx;
+    out->ctx_state_cnt = ctx_state_cnt;
+    out->fstate_idx = fstate_idx;
+    out->fstate_cnt = fstate_cnt;
+    out->builtin_idx = builtin_idx;
+    out->builtin_cnt = builtin_cnt;
+    out->nvars = 0;
+    for (v = spifconf_vars; v; v = v->next) {
+        out->nvars++;
+    }
+    out->tables = ((context) ? (1) : (0)) + ((ctx_state) ? (2) : (0)) + ((fstate) ? (4) : (0)) + ((builtins) ? (8) : (0));
+}
+#endif
+
 /**
  * @defgroup DOXGRP_CONF Configuration File Parser
  *
